@@ -17,8 +17,9 @@
     wrap-around, `(n - len) <= n ? n - len : 0`, is `guardSub` (see `guardSub_eq_c`).
   * `snprintf` never fails (`ret < 0` branches are not modelled).
   * DEFECT SWITCH D14: `derangedString (fixed := false)` is the unchanged code (`ret > m`),
-    `fixed := true` the repaired form (`ret >= m`).  Which one /repo contains is PROBED by the
-    check on every run.
+    `fixed := true` the repaired form (`ret >= m`).  DEFECT SWITCH D2 (F14-XLOOP):
+    `listPushHostlist (fixed := false)` is the unchanged retry loop of opt.c.  Which forms /repo
+    contains is PROBED by the check on every run.
 -/
 import PdshVerif.Hostlist.Basic
 
@@ -241,12 +242,33 @@ def optList (fixed expand : Bool) (h : HL) : Buf × Option Str :=
   | (b, .trunc) => (b, (b.text WCOLL_STR).map (· ++ "[truncated]".toList))
   | (b, .ok _) => (b, b.text WCOLL_STR)
 
-/-- `list_push_hostlist`: `while (hostlist_ranged_string(hl, n-1, s) < 0 && (n*=2 < 0x7fffff))`.
-    `n*=2 < 0x7fffff` parses as `n *= (2 < 0x7fffff)`, i.e. `n *= 1`: the buffer never grows and a
-    list whose text does not fit 4095 bytes is retried forever (`none` = the loop does not end). -/
-def listPushHostlist (h : HL) : Buf × Option Str :=
-  match rangedString (XLIST_BUF - 1) h with
-  | (b, .trunc) => (b, none)
-  | (b, .ok _) => (b, b.text (XLIST_BUF - 1))
+/-- the ceiling `0x7fffff` of `list_push_hostlist` -/
+def XLIST_MAX : Nat := 0x7fffff
+
+/-- the REPAIRED retry loop of `list_push_hostlist`:
+    `while (hostlist_ranged_string(hl, n-1, s) < 0 && ((n *= 2) < 0x7fffff)) Realloc(&s, n);`
+    every round doubles `n`, so 12 rounds from 4096 pass the ceiling (`fuel`; see
+    `listPushLoop_text` for "enough").  When the ceiling stops the loop the truncated text of the
+    last attempt is what gets pushed. -/
+def listPushLoop (h : HL) : Nat → Nat → Buf × Option Str
+  | 0, n =>
+    match rangedString (n - 1) h with
+    | (b, _) => (b, b.text (n - 1))
+  | f + 1, n =>
+    match rangedString (n - 1) h with
+    | (b, .ok _) => (b, b.text (n - 1))
+    | (b, .trunc) => if 2 * n < XLIST_MAX then listPushLoop h f (2 * n) else (b, b.text (n - 1))
+
+/-- `list_push_hostlist`.
+    DEFECT SWITCH D2 / F14-XLOOP: the unchanged condition `(n*=2 < 0x7fffff)` parses as
+    `n *= (2 < 0x7fffff)`, i.e. `n *= 1`: the buffer never grows and a list whose text does not fit
+    4095 bytes is retried forever (`none` = the loop does not end).  `fixed := true` is the
+    repaired form `((n *= 2) < 0x7fffff)`. -/
+def listPushHostlist (fixed : Bool) (h : HL) : Buf × Option Str :=
+  if fixed then listPushLoop h 12 XLIST_BUF
+  else
+    match rangedString (XLIST_BUF - 1) h with
+    | (b, .trunc) => (b, none)
+    | (b, .ok _) => (b, b.text (XLIST_BUF - 1))
 
 end PdshVerif.Hostlist.Print
